@@ -68,6 +68,25 @@ def outage_link(ctx, radio, clock, choices_ms=(0, 2, 30, 60, None), only=None):
     return link, pick
 
 
+def touch_getters(node):
+    """every read-only accessor a node offers (the radio facade of network/mixins.py and the node's own attributes): reading
+    them is not a configuration change, so nothing about the node's behaviour may depend on whether they were read"""
+    for name in ("power", "channel", "listen", "pa_level", "is_lna_enabled", "data_rate", "crc", "last_tx_arc", "node_address",
+                 "fragmentation", "multicast_relay", "multicast_level", "parent", "max_message_length", "allow_multicast",
+                 "tx_timeout", "route_timeout", "ret_sys_msg", "address_prefix", "address_suffix"):
+        getattr(node, name, None)
+    for p in range(6):
+        node.get_dynamic_payloads(p)
+        node.address(p)
+    node.address()
+    node.get_auto_retries()
+    node.fifo(True)
+    node.fifo(False)
+    node.fifo(True, True)
+    node.available()
+    node.peek()
+
+
 def header_of(payload):
     p = blist(payload)
     return dict(from_node=p[0] | (p[1] << 8), to_node=p[2] | (p[3] << 8), frame_id=p[4] | (p[5] << 8),
